@@ -3,10 +3,24 @@
 package hdf5
 
 import (
-	"strings"
-
+	"github.com/scigolib/hdf5/internal/core"
 	"github.com/scigolib/hdf5/internal/vrt"
 )
+
+// verifDatatypeOf parses the stored datatype message of a reopened dataset.
+func verifDatatypeOf(d *Dataset) *core.DatatypeMessage {
+	h, err := core.ReadObjectHeader(d.file.osFile, d.address, d.file.sb)
+	vrt.AssertNoErr(err, "header-read-ok")
+	for _, m := range h.Messages {
+		if m.Type == core.MsgDatatype {
+			dt, err := core.ParseDatatypeMessage(m.Data)
+			vrt.AssertNoErr(err, "datatype-parse-ok")
+			return dt
+		}
+	}
+	vrt.Fail("datatype-message-present")
+	return nil
+}
 
 // C12 E-tier: variable-length strings, n in 1..2, lengths 0..3, bytes symbolic (non-NUL); reopen;
 // the dataset must be recognised as variable-length string data and read back exactly, or the read must fail.
@@ -22,9 +36,9 @@ func VerifH_C12_api_vlen_strings() {
 		data[i] = string(b)
 	}
 	f, d := verifWriteReopen("c12.h5", 2, VLenString, []uint64{uint64(n)}, data)
-	info, err := d.Info()
-	vrt.AssertNoErr(err, "vlen-info-ok")
-	vrt.Assert(strings.Contains(strings.ToLower(info), "variable") || strings.Contains(strings.ToLower(info), "vlen"), "recognised-as-variable-length")
+	dt := verifDatatypeOf(d)
+	vrt.Assert(dt.Class == core.DatatypeVarLen, "recognised-as-variable-length")
+	vrt.Assert(dt.IsVariableString(), "recognised-as-variable-length-string")
 	got, err := d.ReadStrings()
 	if err == nil {
 		vrt.Assert(len(got) == n, "vlen-count")
@@ -52,9 +66,13 @@ func VerifH_C12_api_vlen_int32() {
 		}
 	}
 	f, d := verifWriteReopen("c12b.h5", 2, VLenInt32, []uint64{uint64(n)}, data)
-	info, err := d.Info()
-	vrt.AssertNoErr(err, "vlen-info-ok")
-	vrt.Assert(strings.Contains(strings.ToLower(info), "variable") || strings.Contains(strings.ToLower(info), "vlen"), "recognised-as-variable-length")
+	dt := verifDatatypeOf(d)
+	vrt.Assert(dt.Class == core.DatatypeVarLen, "recognised-as-variable-length")
+	vrt.Assert(!dt.IsVariableString(), "sequence-not-reported-as-string")
+	// base type preserved: 4-byte fixed-point
+	base, err := core.ParseDatatypeMessage(dt.Properties)
+	vrt.AssertNoErr(err, "vlen-base-type-parses")
+	vrt.Assert(base.Class == core.DatatypeFixed && base.Size == 4, "vlen-base-type-preserved")
 	got, err := d.Read()
 	if err == nil {
 		// no typed vlen read exists: a value result would have to be the written data, which []float64 cannot express for ragged rows
